@@ -28,7 +28,10 @@ RESERVED = ['te', 'content-type', 'user-agent']
 # normalise, join or filter exactly these
 LOOKALIKE_KEYS = ['cookie', 'set-cookie', 'host', 'accept', 'date', 'authorization', 'connection',
                   'tenant-id', 'test', 'te-x', 'content-type-options', 'content-types', 'user-agent-x',
-                  'user-agents', 'grpc', 'grp', 'grpcx', 'x-te', 'x-grpc-y', 'status', 'path', 'method']
+                  'user-agents', 'grpc', 'grp', 'grpcx', 'x-te', 'x-grpc-y', 'status', 'path', 'method',
+                  # text keys that merely resemble the binary suffix '-bin'
+                  'x_bin', 'trace_bin', '_bin', 'bin', 'xbin', 'cabin', 'x.bin', 'x-bi', 'x-binx', 'x-bin-', 'x-bin.',
+                  'x-bin_', 'x--bin-x', 'x-bin1', 'bin-x']
 
 
 def gen_key(rng, bin_=None):
@@ -314,13 +317,88 @@ async def e2e_case(md, shape='normal'):
     return seen.get('req'), (im if shape in ('normal', 'late-error') else md), tm
 
 
-def run_e2e(cases):
+async def e2e_sequence(mds):
+    """Several calls in a row on ONE channel (and one on a second channel at the end), with listeners on both
+    ends that add an entry to the event's metadata IN PLACE (the documented way to edit it): every call must
+    arrive with exactly its own metadata plus that call's own listener entries -- nothing carried over from an
+    earlier call, whatever mixture of None / empty / non-empty metadata the calls pass."""
+    from grpclib.testing import ChannelFor
+    from grpclib.client import UnaryUnaryMethod
+    from grpclib.events import listen, SendRequest, SendInitialMetadata, SendTrailingMetadata
+    seen = []
+    n = {'req': 0, 'im': 0, 'tm': 0}
+
+    async def handler(stream):
+        await stream.recv_message()
+        seen.append(list(stream.metadata.items()))
+        await stream.send_message(b'ok')
+
+    async def on_req(ev):
+        n['req'] += 1
+        ev.metadata.add('x-l-req', 'c%d' % n['req'])
+
+    async def on_im(ev):
+        n['im'] += 1
+        ev.metadata.add('x-l-im', 'c%d' % n['im'])
+
+    async def on_tm(ev):
+        n['tm'] += 1
+        ev.metadata.add('x-l-tm', 'c%d' % n['tm'])
+
+    svc = Service('v.S', {'M': (handler, 'UU')})
+    got = []
+    async with ChannelFor([svc], codec=RawCodec()) as ch, ChannelFor([svc], codec=RawCodec()) as ch2:
+        for c in (ch, ch2):
+            listen(c, SendRequest, on_req)
+        srv = None
+        try:
+            import gc
+            from grpclib.server import Server
+            srv = [o for o in gc.get_objects() if isinstance(o, Server)]
+        except Exception:
+            srv = []
+        for sv in srv:
+            try:
+                listen(sv, SendInitialMetadata, on_im)
+                listen(sv, SendTrailingMetadata, on_tm)
+            except Exception:
+                pass
+        for i, md in enumerate(list(mds) + [None]):
+            c = ch2 if i == len(mds) else ch
+            m = UnaryUnaryMethod(c, '/v.S/M', bytes, bytes)
+            kw = {} if md is None else {'metadata': md}
+            async with m.open(**kw) as stream:
+                await stream.send_message(b'x', end=True)
+                await stream.recv_message()
+                await stream.recv_trailing_metadata()
+                got.append((list(stream.initial_metadata.items()), list(stream.trailing_metadata.items())))
+    return seen, got, bool(srv)
+
+
+def check_sequence(mds, out):
+    """None when every call saw exactly its own metadata (plus its own listener entries), else a description"""
+    seen, got, srv_listeners = out
+    for i, md in enumerate(list(mds) + [None]):
+        want = list(md or []) + [('x-l-req', 'c%d' % (i + 1))]
+        if i >= len(seen) or seen[i] != want:
+            return 'call %d arrived with %r, expected %r' % (i + 1, seen[i] if i < len(seen) else None, want)
+        if srv_listeners:
+            im, tm = got[i]
+            if im != [('x-l-im', 'c%d' % (i + 1))] or tm != [('x-l-tm', 'c%d' % (i + 1))]:
+                return 'reply %d carried initial %r / trailing %r' % (i + 1, im, tm)
+    return None
+
+
+def run_e2e(cases, fn=None):
     loop = asyncio.new_event_loop()
     asyncio.set_event_loop(loop)
     out = []
     try:
         for md, shape in cases:
             try:
+                if fn is not None:
+                    out.append(loop.run_until_complete(asyncio.wait_for(fn(md), 20)))
+                    continue
                 out.append(loop.run_until_complete(asyncio.wait_for(e2e_case(md, shape), 20)))
             except Exception as e:
                 out.append(('exc', type(e).__name__, str(e)[:100]))
@@ -436,6 +514,21 @@ def run(ctx):
     # every look-alike key repeated and followed by another key, through every response layout in turn
     for i, k in enumerate(LOOKALIKE_KEYS):
         cases.append(([(k, 'a=1'), ('m', 'x'), (k, 'b=2'), ('zz', 't')], shapes[(i + ctx.seed) % 4]))
+        # text values that happen to be (or not to be) valid base64 must arrive as the same text
+        cases.append(([(k, 'YWJj'), (k, 'hello world!'), (k, 'abcd')], shapes[(i + 1 + ctx.seed) % 4]))
+    # sequences of calls on one channel: nothing of one call's metadata may show up in a later call
+    seqs = [[None, None], [[], None, []], [None, [('a', '1')], None], [[('a', '1')], [], [('b-bin', b'\x00')], None]]
+    for _ in range(ctx.n(6, 40)):
+        seqs.append([rng.choice([None, [], gen_valid_md(rng)]) for _ in range(rng.choice([2, 3, 5]))])
+    for mds, out in zip(seqs, run_e2e([(m, None) for m in seqs], fn=e2e_sequence)):
+        res.evaluations += 1
+        res.count('e2e-sequence:%d' % len(mds))
+        res.signatures.add(('e2e-seq', tuple(None if m is None else len(m) for m in mds)))
+        bad = out[0] == 'exc' and ('harness/driver: %r' % (out,)) or (out[0] != 'exc' and check_sequence(mds, out))
+        if bad:
+            res.oracle_failures.append({'case': {'op': 'e2e-seq', 'mds': mds},
+                                        'what': 'metadata leaked between calls: ' + str(bad),
+                                        'signature': {'op': 'e2e-seq', 'kind': 'leak'}, 'observed': out})
     for (md, shape), out in zip(cases, run_e2e(cases)):
         res.evaluations += 1
         res.count('e2e:' + shape)
@@ -469,4 +562,20 @@ def replay(ctx, case):
             res.oracle_failures.append({'case': case, 'what': 'metadata changed end to end (%s response)' % shape,
                                         'signature': {'op': 'e2e', 'kind': 'changed', 'shape': shape},
                                         'observed': out})
+    elif op == 'e2e-seq':
+        mds = [None if m is None else [(k, unj(v)) for k, v in m] for m in case['mds']]
+        out = run_e2e([(mds, None)], fn=e2e_sequence)[0]
+        res.evaluations = 1
+        bad = ('harness/driver: %r' % (out,)) if out[0] == 'exc' else check_sequence(mds, out)
+        if bad:
+            res.oracle_failures.append({'case': case, 'what': 'metadata leaked between calls: ' + str(bad),
+                                        'signature': {'op': 'e2e-seq', 'kind': 'leak'}, 'observed': out})
+    elif op == 'e2e-seq':
+        mds = [None if m is None else [(k, unj(v)) for k, v in m] for m in case['mds']]
+        out = run_e2e([(mds, None)], fn=e2e_sequence)[0]
+        res.evaluations = 1
+        bad = ('harness/driver: %r' % (out,)) if out[0] == 'exc' else check_sequence(mds, out)
+        if bad:
+            res.oracle_failures.append({'case': case, 'what': 'metadata leaked between calls: ' + str(bad),
+                                        'signature': {'op': 'e2e-seq', 'kind': 'leak'}, 'observed': out})
     return res
